@@ -175,6 +175,15 @@ impl Imager {
                 }
             }
         }
+        // nothing may appear next to the scratch directory either (a side file beside the user's temp folder)
+        if let Some(work) = self.scratch.parent() {
+            if let Ok(rd) = std::fs::read_dir(work) {
+                let extra: Vec<String> = rd.filter_map(|e| e.ok()).map(|e| e.file_name().to_string_lossy().to_string()).filter(|n| !matches!(n.as_str(), "env" | "scratch" | "image" | "upg" | "a-file")).collect();
+                if !extra.is_empty() {
+                    return Err(("side_channel_file".into(), format!("a crash now would leave {extra:?} next to the temp directory")));
+                }
+            }
+        }
         // nothing but LMDB's two files may live next to the data file
         if let Some(envdir) = self.data.parent() {
             if let Ok(rd) = std::fs::read_dir(envdir) {
